@@ -42,8 +42,6 @@ def tasks(tier, seed):
     for nt in NODE_TYPES:
         for qt in QUAD_TYPES:
             for M in (range(1, 6) if quick else range(1, 9)):
-                if qt in ('LOBATTO', 'RADAU-LEFT') and M < 2:
-                    continue
                 T.append(('coll', nt, qt, M, intervals if not quick else intervals[:7] + intervals[7:8]))
     return T
 
